@@ -25,7 +25,7 @@ pub fn def() -> CheckDef {
             "reference model written from the crate documentation and MS-CFB; ambiguities listed in model::AMBIGUOUS are accepted either way",
             "names are drawn from character classes on whose case mapping all published tables agree",
         ],
-        cpu_limit_s: 20,
+        cpu_limit_s: 120,
         fault_kinds: "none (fault-free disk; reopen at drawn points)",
         count_subruns: false,
         expect_probes: &[],
